@@ -616,14 +616,13 @@ func (r *Runner) runBFS() {
 
 // ---------------------------------------------------------------- verdict
 
-func (r *Runner) confirm(st *sigTotal) {
+func (r *Runner) confirm(st *sigTotal, tries int) {
 	if len(st.Specs) == 0 {
 		return
 	}
 	spec := st.Specs[0]
 	var wg sync.WaitGroup
 	var mu sync.Mutex
-	const tries = 5
 	for i := 0; i < tries; i++ {
 		wg.Add(1)
 		go func() {
@@ -722,7 +721,11 @@ func Run(p *Prop, tier string, seed int, self string) int {
 			sem <- true
 			go func(st *sigTotal) {
 				defer cwg.Done()
-				r.confirm(st)
+				tries := 5 // an unknown signature decides the verdict: re-run it 5x in fresh processes
+				if matchFinding(open, st.Sig) != nil {
+					tries = 2 // a listed finding only has to be seen again
+				}
+				r.confirm(st, tries)
 				<-sem
 			}(st)
 		}
